@@ -5,7 +5,7 @@
 cd /verif || exit 2
 ids="$@"; [ -z "$ids" ] && ids=$(ls seeded)
 for id in $ids; do
-  patch=seeded/$id/patch.diff
+  patch=/verif/seeded/$id/patch.diff
   checks=$(python3 -c "import json;print(' '.join(json.load(open('seeded/$id/meta.json'))['detection']['caught_by']))")
   if ! git -C /repo apply --check "$patch" 2>/dev/null; then echo "$id: PATCH-DOES-NOT-APPLY"; continue; fi
   git -C /repo apply "$patch"
